@@ -737,7 +737,7 @@ impl ParserListener for Screen {
     fn insert_characters(&mut self, count: Option<u32>) {
         self.dirty.insert(self.cursor.y);
 
-        let count = count.unwrap_or(1);
+        let count = count.filter(|&c| c != 0).unwrap_or(1);
         let default = self.default_char();
 
         let line = self.buffer.entry(self.cursor.y).or_insert_with(HashMap::new);
